@@ -325,7 +325,8 @@ Record column := {
   c_auto : bool
 }.
 
-Record schema := { s_cols : list column; s_pk : list nat }.
+(* s_uniq: the secondary UNIQUE indexes (column lists), in the order fakedb keeps them *)
+Record schema := { s_cols : list column; s_pk : list nat; s_uniq : list (list nat) }.
 
 Fixpoint find_col_from (c : bytes) (cols : list column) (i : nat) : option (nat * column) :=
   match cols with
@@ -336,6 +337,40 @@ Definition find_col (c : bytes) (cols : list column) : option (nat * column) := 
 
 Definition key_of (sch : schema) (vals : row) : key :=
   map (fun i => nth i vals VNull) (s_pk sch).
+
+(* the values of an index's columns *)
+Definition uvals (ix : list nat) (vals : row) : list value := map (fun i => nth i vals VNull) ix.
+
+(* two rows collide on a unique index: equal values, none of them NULL *)
+Definition collides (ix : list nat) (a b : row) : bool :=
+  negb (existsb (fun v => match v with VNull => true | _ => false end) (uvals ix a))
+  && key_eqb (uvals ix a) (uvals ix b).
+
+(* lock names: the row lock of a row is its primary key; the unique-value lock
+   of secondary index number i is VNull :: VInt i :: values (a primary key never
+   starts with NULL).  Values with a NULL take no unique-value lock. *)
+Fixpoint ulocks_from (i : Z) (ixs : list (list nat)) (vals : row) : list key :=
+  match ixs with
+  | [] => []
+  | ix :: r =>
+      let u := uvals ix vals in
+      (if existsb (fun v => match v with VNull => true | _ => false end) u then []
+       else [VNull :: VInt i :: u]) ++ ulocks_from (i + 1) r vals
+  end.
+
+(* what writing a row asks for, in order: its row lock, then its unique-value locks *)
+Definition row_locks (sch : schema) (vals : row) : list key :=
+  key_of sch vals :: ulocks_from 0 (s_uniq sch) vals.
+
+(* the rows that collide with vals on a secondary unique index: index order,
+   then key order, each row once, the keys in `skip` left out *)
+Fixpoint sec_conflicts (ixs : list (list nat)) (vals : row) (skip : list key) (t : tbl) : tbl :=
+  match ixs with
+  | [] => []
+  | ix :: r =>
+      let here := filter (fun kr => negb (existsb (key_eqb (fst kr)) skip) && collides ix vals (snd kr)) t in
+      here ++ sec_conflicts r vals (skip ++ map fst here) t
+  end.
 
 Fixpoint set_nth {A} (i : nat) (v : A) (l : list A) : list A :=
   match l, i with
@@ -818,11 +853,15 @@ Definition update_row (bl : blocker) (sch : schema) (en : env) (sets : list (byt
       else
         let auto' := bump_auto (s_cols sch) vals (w_auto s) in
         let k' := key_of sch vals in
-        (* the row lock of the (possibly new) key is taken before the duplicate check *)
-        if bl k' then WFail auto' (w_locks s) (EErr E_LOCKWAIT)
-        else if negb (key_eqb k' k) && mem k' (w_t s) then WFail auto' (w_locks s ++ [k']) (EErr E_DUP)
+        let req := row_locks sch vals in
+        (* the row lock of the (possibly new) key and the unique-value locks are
+           taken before the duplicate check, which looks at every unique index *)
+        if existsb bl req then WFail auto' (w_locks s ++ free_prefix bl req) (EErr E_LOCKWAIT)
+        else if (negb (key_eqb k' k) && mem k' (w_t s))
+                || match sec_conflicts (s_uniq sch) vals [k; k'] (w_t s) with [] => false | _ => true end
+        then WFail auto' (w_locks s ++ req) (EErr E_DUP)
         else WOk {| w_t := put k' vals (remove k (w_t s)); w_auto := auto';
-                    w_aff := w_aff s + inc; w_last := w_last s; w_locks := w_locks s ++ [k'] |}
+                    w_aff := w_aff s + inc; w_last := w_last s; w_locks := w_locks s ++ req |}
   end.
 
 Definition sets_ok (cols : list column) (sets : list (bytes * expr)) : bool :=
@@ -953,21 +992,35 @@ Definition insert_row (bl : blocker) (sch : schema) (en : env) (mode : insmode) 
           let k := key_of sch vals in
           (* the row lock of the new key comes first: an uncommitted row (or an
              uncommitted delete) of another transaction under that key is a 1205 *)
-          if bl k then WFail auto2 (w_locks s) (EErr E_LOCKWAIT) else
-          let lk := w_locks s ++ [k] in
+          let req := row_locks sch vals in
+          if existsb bl req then WFail auto2 (w_locks s ++ free_prefix bl req) (EErr E_LOCKWAIT) else
+          let lk := w_locks s ++ req in
           let s1 := {| w_t := w_t s; w_auto := auto2; w_aff := w_aff s; w_last := last1; w_locks := lk |} in
-          match lookup k (w_t s) with
-          | None => WOk {| w_t := put k vals (w_t s); w_auto := auto2;
-                           w_aff := w_aff s + 1; w_last := last1; w_locks := lk |}
-          | Some old =>
+          (* the rows in the way: the holder of the primary key first, then the
+             holders of the secondary unique values in index order *)
+          let confl := match lookup k (w_t s) with Some old => [(k, old)] | None => [] end
+                       ++ sec_conflicts (s_uniq sch) vals [k] (w_t s) in
+          match confl with
+          | [] => WOk {| w_t := put k vals (w_t s); w_auto := auto2;
+                         w_aff := w_aff s + 1; w_last := last1; w_locks := lk |}
+          | (ko, old) :: _ =>
               match ondup with
               | _ :: _ =>
+                  (* the FIRST row in the way is updated, under its row lock *)
+                  if bl ko then WFail auto2 lk (EErr E_LOCKWAIT) else
                   update_row bl sch {| e_cols := cols; e_row := []; e_args := e_args en;
-                                       e_ins := Some vals |} ondup 2 s1 (k, old)
+                                       e_ins := Some vals |} ondup 2
+                             {| w_t := w_t s; w_auto := auto2; w_aff := w_aff s; w_last := last1;
+                                w_locks := lk ++ [ko] |} (ko, old)
               | [] =>
                   match mode with
-                  | InsReplace => WOk {| w_t := put k vals (remove k (w_t s)); w_auto := auto2;
-                                         w_aff := w_aff s + 2; w_last := last1; w_locks := lk |}
+                  | InsReplace =>
+                      (* every row in the way is deleted: 1 + their number *)
+                      let ks := keys confl in
+                      if existsb bl ks then WFail auto2 (lk ++ free_prefix bl ks) (EErr E_LOCKWAIT)
+                      else WOk {| w_t := put k vals (remove_keys ks (w_t s)); w_auto := auto2;
+                                  w_aff := w_aff s + 1 + Z.of_nat (length confl); w_last := last1;
+                                  w_locks := lk ++ ks |}
                   | InsIgnore => WOk s1
                   | InsPlain => WFail auto2 lk (EErr E_DUP)
                   end
